@@ -27,6 +27,10 @@ PROPS = {
     "C19": dict(world="encoder_world", level="exploration",
                 quick=dict(runs=20000, wall=240, chunk=500), thorough=dict(runs=800000, wall=1500, chunk=4000),
                 assumptions=COMMON_ASSUME + ["refractory periods are multiples of dt and frequency x refrac < 900 (documented constraint < 1000, kept with a margin)"]),
+    "C15": dict(world="lifecycle_world", level="fault_enumeration",
+                quick=dict(runs=3000, wall=400, chunk=50), thorough=dict(runs=120000, wall=2400, chunk=500),
+                assumptions=COMMON_ASSUME + ["updates are read from the updaters and cleared, never applied, so the control replica sees the same dynamics",
+                                             "deleting a monitor the trainer's own step depends on is treated as a user error (only added monitors are deleted)"]),
     "C16": dict(world="hook_world", level="fault_enumeration",
                 quick=dict(runs=30000, wall=240, chunk=500), thorough=dict(runs=1200000, wall=1500, chunk=4000),
                 assumptions=COMMON_ASSUME + ["hook death is injected as del + gc.collect() of the last reference held by the harness"]),
